@@ -253,6 +253,10 @@ fn make_case(timers: &[(Action, bool)], term: Term, term_time: u32, mailbox: Mai
         }
         ops.push(Op::Sleep(1));
     }
+    if MANY.with(|m| m.get()) {
+        // a handler arms a few dozen short one-shots while the timers above are still pending
+        ops.insert(0, Op::Cmd(H::Addr(0), 60, Action::ManyOneShots { n: 40 }));
+    }
     let mut spawn = SpawnCfg { mailbox, strat: Strat::Default, timeout: None };
     let abandoned_registrar = ABANDONED_REGISTRAR.with(|a| a.get()) && any_handler;
     if abandoned_registrar {
@@ -367,6 +371,8 @@ fn with_restart_first<T>(at: u32, recreate: bool, f: impl FnOnce() -> T) -> T {
 }
 
 thread_local! {
+    /// forty more one-shots are armed by a handler at t=0
+    static MANY: std::cell::Cell<bool> = const { std::cell::Cell::new(false) };
     /// the handler that registers the timers overruns a carry-on limit afterwards
     static ABANDONED_REGISTRAR: std::cell::Cell<bool> = const { std::cell::Cell::new(false) };
     /// length of a scene tick in microseconds for the cases being generated
@@ -418,6 +424,20 @@ fn plain_cases(tier: Tier) -> Vec<Case> {
             }
         }
     }
+    // many timers on one actor (forty one-shots armed by a handler next to a long one armed in
+    // started()): every one of them goes with the actor
+    MANY.with(|m| m.set(true));
+    for kind in [0u8, 3] {
+        for &mb in &[Mailbox::U, Mailbox::B(1)] {
+            for (term, tt) in [(Term::Stop, 3u32), (Term::Drop, 3), (Term::Panic, 3)] {
+                let mut c = make_case(&[(timer_of(kind, 1, 6), false)], term, tt, mb, Work::default(), false, 0);
+                c.desc = c.desc.replacen("timers", "timers [forty one-shots armed by a handler]", 1);
+                c.bound = Some(1);
+                v.push(c);
+            }
+        }
+    }
+    MANY.with(|m| m.set(false));
     // a timer registered by an invocation that is abandoned later on (carry-on limit): it has
     // been registered, it fires like any other (period / delay 3: first due at t=4, the actor
     // has been idle again since t=3)
